@@ -3,23 +3,26 @@ C01 — acceptance is run semantics; determinise / ε-removal / copy keep the la
 have the advertised shape.  Property theorems only (helper lemmas live in Pfl/Proofs).
 -/
 import Pfl.Proofs.FABase
+import Pfl.Proofs.FAEpsCopy
 namespace Pfl
 namespace ENFA
 variable {σ κ : Type} [DecidableEq σ] [DecidableEq κ]
 
 theorem removeEps_lang (A : ENFA σ) (h : A.WF) (w : List Nat) :
-    A.removeEps.Lang w ↔ A.Lang w := by
-  sorry
+    A.removeEps.Lang w ↔ A.Lang w :=
+  removeEps_lang' A h w
 
-theorem removeEps_epsFree (A : ENFA σ) : A.removeEps.EpsFree := by
-  sorry
+theorem removeEps_epsFree (A : ENFA σ) : A.removeEps.EpsFree :=
+  removeEps_epsFree' A
 
-theorem copyE_lang (A : ENFA σ) (h : A.WF) (w : List Nat) : A.copyE.Lang w ↔ A.Lang w := by
-  sorry
+theorem copyE_lang (A : ENFA σ) (h : A.WF) (w : List Nat) : A.copyE.Lang w ↔ A.Lang w :=
+  lang_congr (fun q => by unfold copyE; rw [mem_ofParts_starts])
+    (fun q => by unfold copyE; rw [mem_ofParts_finals]) (mem_copyE_delta A h) w
 
 theorem copyD_lang (A : ENFA σ) (h : A.WF) (hd : A.Deterministic) (he : A.EpsFree)
-    (w : List Nat) : A.copyD.Lang w ↔ A.Lang w := by
-  sorry
+    (w : List Nat) : A.copyD.Lang w ↔ A.Lang w :=
+  lang_congr (mem_copyD_starts A hd)
+    (fun q => by unfold copyD; rw [mem_ofParts_finals]) (mem_copyD_delta A h hd he) w
 
 end ENFA
 end Pfl
